@@ -83,8 +83,15 @@ class Parser:
         self.i += 1
         return tok
 
+    def split_angle(self):
+        """inside a type, `<<` and `>>` are two angle brackets, not shifts"""
+        k, v = self.peek()
+        if k == "op" and v in ("<<", ">>"):
+            self.t[self.i:self.i + 1] = [("op", v[0]), ("op", v[0])]
+
     # ---- types (only what signatures and casts need)
     def ty(self):
+        self.split_angle()
         if self.at("&"):
             self.eat()
             if self.peek()[0] == "life":
@@ -105,6 +112,7 @@ class Parser:
             depth = 0
             txt = ""
             while True:
+                self.split_angle()
                 k, v = self.eat()
                 txt += v
                 if v == "<": depth += 1
@@ -118,8 +126,10 @@ class Parser:
         while self.at("::"):
             self.eat(); name += "::" + self.eat()[1]
         args = []
+        self.split_angle()
         if self.at("<"):
             self.eat()
+            self.split_angle()
             while not self.at(">"):
                 if self.peek()[0] == "life":
                     self.eat()
@@ -127,6 +137,7 @@ class Parser:
                     args.append(self.ty())
                 if self.at(","):
                     self.eat()
+                self.split_angle()
             self.eat(">")
         prim = {"usize": U, "u64": W, "bool": B, "u32": U32}
         if name in prim:
@@ -224,17 +235,21 @@ class Parser:
                 rev, it = True, it[1]
             while it[0] == "paren":
                 it = it[1]
+            if it[0] == "mcall" and it[2] == "iter" and not it[3] and not rev:
+                b = self.block()
+                return ("for", var, ("int", 0, None), ("arrlen", it[1]), False, b, it[1]), False
             if it[0] != "range":
-                raise Unsupported("`for` over anything but a range `a..b` or `(a..b).rev()`")
+                raise Unsupported("`for` over anything but a range `a..b`, `(a..b).rev()` or `array.iter()`")
             b = self.block()
-            return ("for", var, it[1], it[2], rev, b), False
+            return ("for", var, it[1], it[2], rev, b, None), False
         if self.at("while"):
             raise Unsupported("`while let` loops are outside the translated subset")
         e = self.expr()
         if self.at("=", "+=", "-=", "*=", "/=", "%=", "&=", "|=", "^=", "<<=", ">>=") and self.peek()[0] == "op":
             op = self.eat()[1]
             r = self.expr()
-            self.eat(";")
+            if not self.at("}"):
+                self.eat(";")
             return ("assign", e, op, r), False
         if self.at(";"):
             self.eat()
@@ -361,9 +376,11 @@ class Parser:
             self.eat("=")
             scrut = self.expr(nostruct=True)
             body = self.block()
+            els = None
             if self.at("else"):
-                raise Unsupported("`if let … else`")
-            return ("iflet", var, scrut, body)
+                self.eat()
+                els = self.block()
+            return ("iflet", var, scrut, body, els)
         if v == "if":
             self.eat()
             c = self.expr(nostruct=True)
@@ -391,6 +408,15 @@ class Parser:
         if k == "str":
             self.eat()
             return ("str", v)
+        if v == "|" and k == "op":
+            self.eat()
+            pats = []
+            while not self.at("|"):
+                pats.append(self.pat())
+                if self.at(","):
+                    self.eat()
+            self.eat("|")
+            return ("closure", pats, self.expr())
         if v == "<":
             depth, txt = 0, ""
             while True:
@@ -425,6 +451,17 @@ class Parser:
                     path[-1] += "::" + txt
                     continue
                 path.append(self.eat()[1])
+            if self.at("!") and self.peek(1)[1] == "[" and path == ["vec"]:
+                self.eat(); self.eat("[")
+                items = []
+                while not self.at("]"):
+                    items.append(self.expr())
+                    if self.at(";"):
+                        raise Unsupported("vec![x; n]")
+                    if self.at(","):
+                        self.eat()
+                self.eat("]")
+                return ("veclit", items)
             if self.at("!") and self.peek(1)[1] == "(":
                 self.eat()
                 # macro: collect the argument expressions up to the first string literal
@@ -566,6 +603,8 @@ class Emitter:
 
     # --- state packaging for &mut self methods
     def self_value(self):
+        if self.cfg.get("self_ctor"):
+            return self.cfg["self_ctor"]
         s = self.cfg["self"]
         return "(⟨" + ", ".join("self_" + f for f in s["order"]) + "⟩ : %s)" % s["lean"]
 
@@ -631,6 +670,8 @@ class Emitter:
                 return self.env[e[1][0]]
             if name == "self" and self.cfg.get("self") and not self.selfmut:
                 return self.cfg["self"]["var"], ("N", self.cfg["self"].get("rust", "Self"))
+            if name in self.cfg.get("paths", {}):
+                return self.cfg["paths"][name]
             if name == "usize::MAX":
                 return "(U64 - 1)", U
             if name == "None":
@@ -657,6 +698,9 @@ class Emitter:
             if bty and bty[0] == "T" and e[2].isdigit():
                 return "%s.%d" % (base, int(e[2]) + 1), bty[1][int(e[2])]
             raise Unsupported("field access .%s on %r" % (e[2], bty))
+        if k == "veclit":
+            vals = [self.expr(x, pre, W)[0] for x in e[1]]
+            return "#[" + ", ".join(vals) + "]", A
         if k == "tuple":
             parts = [self.expr(x, pre, (want[1][i] if want and want[0] == "T" else None)) for i, x in enumerate(e[1])]
             return "(" + ", ".join(p[0] for p in parts) + ")", ("T", [p[1] for p in parts])
@@ -726,6 +770,10 @@ class Emitter:
                 v, ty = self.expr(e[2][0], pre, want[1] if want and want[0] == "O" else None)
                 return "(some %s)" % v, ("O", ty)
             return self.call(key, e[2], pre, want, extra_exprs=extra)
+        if k == "try" and self.peek_ret_R(e[1]):
+            v, ty = self.expr(e[1], pre)
+            pre.append("gTry %s" % v)                                  # `Err(_)` → return Err: the outcome `err other`
+            return "()", UNIT
         if k == "try":
             if e[1][0] == "call":
                 try:
@@ -756,6 +804,30 @@ class Emitter:
                 raise Unsupported("block expression with statements")
             return self.expr(b[2], pre, want)
         raise Unsupported("expression %s" % k)
+
+    def is_load_call(self, e):
+        if e[0] != "call":
+            return False
+        try:
+            ck, _ = self.callee_key(e[1])
+        except Unsupported:
+            return False
+        ent = self.cfg.get("calls", {}).get(ck) or self.calls.get(ck)
+        return bool(ent and ent.get("load"))
+
+    def peek_ret_R(self, e):
+        """is `e` a call whose table entry returns an io::Result<()> success flag?"""
+        try:
+            if e[0] == "mcall":
+                key, _ = self.callee_key(("field", e[1], e[2]))
+            elif e[0] == "call":
+                key, _ = self.callee_key(e[1])
+            else:
+                return False
+        except Unsupported:
+            return False
+        ent = self.cfg.get("calls", {}).get(key) or self.calls.get(key)
+        return bool(ent and ent.get("ret") == "R")
 
     def if_expr(self, e, pre, want):
         c, _ = self.expr(e[1], pre, B)
@@ -803,6 +875,9 @@ class Emitter:
             b, tb = "(%s : Word)" % b, W                              # an associated constant of type u64
         if tb == W and ta == U and a.isdigit() and op not in ("<<", ">>"):
             a, ta = "(%s : Word)" % a, W
+        if cmp and op in ("==", "!=") and (b == "none" or a == "none"):
+            o = a if b == "none" else b
+            return ("(%s).isSome" % o if op == "!=" else "(%s).isNone" % o), B
         if cmp:
             if ta != tb:
                 raise Unsupported("comparison between %r and %r" % (ta, tb))
@@ -854,9 +929,21 @@ class Emitter:
         v, ty = self.expr(recv, pre)
         if name == "as_ref" and not args and ty and ty[0] == "O":
             return v, ty
+        if name == "map" and ty and ty[0] == "O" and len(args) == 1 and args[0][0] == "closure" and len(args[0][1]) == 1:
+            # `opt.map(|pat| body)`: the body is evaluated only on `Some`
+            cl = args[0]
+            saved = dict(self.env)
+            binds = []
+            self.bind_pat(cl[1][0], "x_", ty[1], binds, "")
+            p2 = []
+            b, tb = self.expr(cl[2], p2, None)
+            self.env = saved
+            t = self.fresh()
+            pre.append(("optmap", t, v, [l.strip() for l in binds], p2, b))
+            return t, ("O", tb)
         prim = {("count_ones", W): ("(popcount %s)", U32), ("leading_zeros", W): ("(clz %s)", U32),
                 ("trailing_zeros", W): ("(ctz %s)", U32), ("reverse_bits", W): ("(%s).reverse", W)}
-        if (name, ty) in prim and not args:
+        if isinstance(ty, str) and (name, ty) in prim and not args:
             tpl, rty = prim[(name, ty)]
             return tpl % v, rty
         if ty == U and name in ("checked_sub", "checked_add", "saturating_add", "saturating_sub"):
@@ -864,6 +951,9 @@ class Emitter:
             fn = {"checked_sub": ("(checkedSub %s %s)", ("O", U)), "checked_add": ("(checkedAdd %s %s)", ("O", U)),
                   "saturating_add": ("(BitVector.satAdd %s %s)", U), "saturating_sub": ("(%s - %s)", U)}[name]
             return fn[0] % (v, a), fn[1]
+        if ty == "R" and name == "unwrap" and not args:
+            pre.append("gUnwrap %s" % v)
+            return "()", UNIT
         if ty and ty[0] == "O" and name == "unwrap":
             t = self.fresh()
             pre.append("let %s ← unwrapM %s" % (t, v))
@@ -875,7 +965,13 @@ class Emitter:
             key = "<%s>.%s" % (ty[1], name)
             ent = self.cfg.get("calls", {}).get(key) or self.calls.get(key)
             if ent and ent.get("mutrecv"):
-                code = ent["lean"].format(v)
+                argtys = ent.get("args")
+                vals = [v] + [self.expr(a, pre, argtys[i] if argtys else None)[0] for i, a in enumerate(args)]
+                code = ent["lean"].format(*vals)
+                if ent.get("monadic"):
+                    t = self.fresh()
+                    pre.append("let %s ← %s" % (t, code))
+                    code = t
                 self.assign_place(recv, code, pre)
                 return "()", UNIT
             if ent:
@@ -910,6 +1006,13 @@ class Emitter:
             rd = self.cfg["reader"]
             pre.append("let (%s, %s) ← %s" % (t, rd, ent["lean"].format(rd)))
             return t, ent["ret"]
+        if ent.get("setvar") and ent.get("ret") not in (None, UNIT):
+            pass
+        if ent.get("setvar") and ent.get("ret") not in (None, UNIT):
+            t = self.fresh()
+            pre.append("let %s ← %s" % (t, code))
+            pre.append("let %s := %s.2" % (ent["setvar"], t))
+            return "%s.1" % t, ent["ret"]
         if ent.get("setvar"):
             if ent.get("monadic", True):
                 pre.append("let %s ← %s" % (ent["setvar"], code))
@@ -975,12 +1078,33 @@ class Emitter:
         return acc
 
     def assigned_expr(self, e, acc):
+        if e[0] in ("mcall", "call", "try", "paren", "ref", "deref", "un", "cast"):
+            # state-changing calls may sit inside receivers and arguments (`self.flush(..).unwrap()`, `f(self.pop())?`)
+            subs = []
+            if e[0] == "mcall":
+                subs = [e[1]] + list(e[3])
+            elif e[0] == "call":
+                subs = list(e[2])
+            elif e[0] in ("try", "paren", "ref", "deref"):
+                subs = [e[1]]
+            elif e[0] == "un":
+                subs = [e[2]]
+            elif e[0] == "cast":
+                subs = [e[1]]
+            for x in subs:
+                if isinstance(x, tuple):
+                    self.assigned_expr(x, acc)
         if e[0] == "if":
             self.assigned(e[2], acc)
             if e[3]:
                 self.assigned(e[3], acc)
         elif e[0] == "blockexpr":
             self.assigned(e[1], acc)
+        elif e[0] == "mcall" and e[1][0] == "path" and len(e[1][1]) == 1 and e[1][1][0] in self.env and \
+                isinstance(self.env[e[1][1][0]][1], tuple) and self.env[e[1][1][0]][1][0] == "N" and \
+                ((self.cfg.get("calls", {}).get("<%s>.%s" % (self.env[e[1][1][0]][1][1], e[2]))
+                  or self.calls.get("<%s>.%s" % (self.env[e[1][1][0]][1][1], e[2])) or {}).get("mutrecv")):
+            acc.add(self.env[e[1][1][0]][0])                         # a mutating method called on a local
         elif e[0] in ("mcall", "call"):
             try:
                 key, _ = self.callee_key(("field", e[1], e[2])) if e[0] == "mcall" else self.callee_key(e[1])
@@ -1036,7 +1160,12 @@ class Emitter:
         return self.unit_block(e[2]) and self.unit_block(e[3])
 
     def norm(self, b):
+        """a unit-valued `if`, or a transparent `unsafe { … }` block, in tail position is a statement"""
+        while b is not None and b[2] is not None and b[2][0] == "blockexpr":
+            b = ("block", list(b[1]) + list(b[2][1][1]), b[2][1][2])
         if b is not None and b[2] is not None and self.unit_if(b[2]):
+            return ("block", list(b[1]) + [("expr", b[2])], None)
+        if b is not None and b[2] is not None and b[2][0] == "iflet" and b[2][4] is None:
             return ("block", list(b[1]) + [("expr", b[2])], None)
         return b
 
@@ -1061,6 +1190,15 @@ class Emitter:
             elif p[0] == "try":
                 # `?` on Option: the rest of the function is the `some` continuation — handled by the caller
                 out.append(("try", p[1], p[2], ind, p[3]))
+            elif p[0] == "optmap":
+                _, t, v, binds, p2, b = p
+                out.append(ind + "let %s ← (match %s with" % (t, v))
+                out.append(ind + "  | none => pure none")
+                out.append(ind + "  | some x_ => do")
+                for bl in binds:
+                    out.append(ind + "      " + bl)
+                self.flush(p2, out, ind + "      ")
+                out.append(ind + "      pure (some %s))" % b)
             elif p[0] == "ifm":
                 _, t, c, p1, a, p2, b = p
                 out.append(ind + "let %s ← (if %s then do" % (t, c))
@@ -1138,6 +1276,8 @@ class Emitter:
                     rest = (stmts[idx + 1:], tail)
                     if self.if_stmt(e, rest, out, ind, is_fn_body):
                         return
+                elif e[0] == "iflet" and e[4] is not None:
+                    raise Unsupported("`if let … else` that is not the last expression of its block")
                 elif e[0] == "iflet":
                     # `if let Some(x) = e { body }` where the body assigns nothing and leaves only through `return Err(..)`
                     # (a fault propagates through the monad, so the body is a unit-valued block)
@@ -1189,12 +1329,32 @@ class Emitter:
                     for b in (tail[2], tail[3])):
             self.if_stmt(tail, ([], None), out, ind, is_fn_body, as_tail=True)
             return
+        if tail is not None and tail[0] == "iflet" and tail[4] is not None:
+            # `if let Some(x) = e { … } else { … }` as the value of the block: a match with both arms in tail position
+            pre = []
+            sv, sty = self.expr(tail[2], pre)
+            self.flush(pre, out, ind)
+            if not (sty and sty[0] == "O"):
+                raise Unsupported("`if let Some` on a non-Option")
+            out.append(ind + "match %s with" % sv)
+            out.append(ind + "| some %s => do" % lname(tail[1]))
+            saved = dict(self.env)
+            self.env[tail[1]] = (lname(tail[1]), sty[1])
+            self.stmts(tail[3][1], tail[3][2], out, ind + "    ", is_fn_body)
+            self.env = dict(saved)
+            out.append(ind + "| none => do")
+            self.stmts(tail[4][1], tail[4][2], out, ind + "    ", is_fn_body)
+            self.env = saved
+            return
         if tail is not None:
             if tail[0] == "if" and (tail[2][1] or (tail[3] and tail[3][1])):
                 self.if_stmt(tail, ([], None), out, ind, is_fn_body, as_tail=True)
                 return
             pre = []
             v, ty = self.expr(tail, pre, self.ret)
+            if ty == "R":
+                pre.append("gTry %s" % v)                              # the callee's io::Result is this function's result
+                v, ty = None, UNIT
             self.flush(pre, out, ind)
             if is_fn_body:
                 out.append(ind + self.wrap_return(v, ty))
@@ -1205,6 +1365,14 @@ class Emitter:
 
     def assign(self, s, pre):
         place, op, rhs = s[1], s[2], s[3]
+        try:
+            pk, _ = self.callee_key(place)
+        except Unsupported:
+            pk = None
+        ov = self.cfg.get("assign_override", {}).get(pk)
+        if ov and op == "=":
+            pre.append("let %s := %s" % ov)
+            return
         while place[0] == "paren":
             place = place[1]
         if place[0] == "index":
@@ -1266,6 +1434,8 @@ class Emitter:
         self.flush(pre, out, ind + "    ")
         out.append(ind + "    if %s then do" % c)
         body = self.norm(st[2])
+        if body[2] is not None:
+            raise Unsupported("loop body ending in a value")
         self.stmts(body[1], None, out, ind + "      ", True)
         out.append(ind + "    else do")
         out.append(ind + "      pure (Ctl.brk %s)) %s" % (pat, pat))
@@ -1305,10 +1475,16 @@ class Emitter:
     def for_stmt(self, st, rest, out, ind, is_fn_body):
         """`for x in a..b { body }` / `for x in (a..b).rev() { body }`: `loopM` over a counter and the variables the body
         assigns; the iteration bound is the length of the range plus one"""
-        _, var, lo, hi, rev, body = st
+        _, var, lo, hi, rev, body, arr = st
         pre = []
         a, _ = self.expr(lo, pre, U)
-        b, _ = self.expr(hi, pre, U)
+        if arr is not None:
+            arrv, arrt = self.expr(arr, pre, None)
+            if arrt != A:
+                raise Unsupported("`for x in e.iter()` over %r" % (arrt,))
+            b = "%s.size" % arrv
+        else:
+            b, _ = self.expr(hi, pre, U)
         self.flush(pre, out, ind)
         self.nloops += 1
         n = self.nloops
@@ -1324,14 +1500,19 @@ class Emitter:
         if not rev:
             nxt = "(" + ", ".join(["%s + 1" % cnt] + vs) + ")" if vs else "(%s + 1)" % cnt
             out.append(ind + "    if (decide (%s < for_hi%d)) then do" % (cnt, n))
-            out.append(ind + "      let %s := %s" % (lname(var), cnt))
+            if arr is not None:
+                out.append(ind + "      let %s := rd %s %s" % (lname(var), arrv, cnt))      # the element (in range: %s < size)
+            else:
+                out.append(ind + "      let %s := %s" % (lname(var), cnt))
         else:
             nxt = "(" + ", ".join(["%s - 1" % cnt] + vs) + ")" if vs else "(%s - 1)" % cnt
             out.append(ind + "    if (decide (for_lo%d < %s)) then do" % (n, cnt))
             out.append(ind + "      let %s := %s - 1" % (lname(var), cnt))
-        self.env[var] = (lname(var), U)
+        self.env[var] = (lname(var), W if arr is not None else U)
         self.loop = nxt
         nb = self.norm(body)
+        if nb[2] is not None:
+            raise Unsupported("loop body ending in a value")
         self.stmts(nb[1], None, out, ind + "      ", True)
         out.append(ind + "    else do")
         out.append(ind + "      pure (Ctl.brk %s)) %s" % (pat, ("(" + ", ".join(["for_lo%d" % n if not rev else "for_hi%d" % n] + vs) + ")") if vs
@@ -1363,7 +1544,9 @@ class Emitter:
             if not isinstance(e, tuple):
                 return False
             if e and e[0] == "try":
-                return True
+                # only `?` on an Option makes the enclosing function return a VALUE early; `?` on an io::Result is a fault
+                if not self.peek_ret_R(e[1]) and not self.is_load_call(e[1]):
+                    return True
             return any(walk(x) if isinstance(x, tuple) else (any(walk(y) for y in x) if isinstance(x, list) else False) for x in e[1:])
         return any(walk(st) for st in block[1]) or (block[2] is not None and walk(block[2]))
 
